@@ -86,14 +86,14 @@ CLAIMED.update({
                     "iterates a finite iterable it does not extend; the resolved call graph is acyclic; no reachable external is non-terminating. "
                     "Hence the flux solver and every model with a finite step count return or raise, for all inputs.",
             "note": "Library routines are assumed to terminate. NOT decided: the number of iterations."},
-    "C16": {"technique": "static: effect/alias analysis with depth-indexed ownership; call-graph reachability; structural best-of pattern; normal forms",
+    "C16": {"technique": "static: effect/alias analysis with depth-indexed ownership; call-graph reachability; structural best-of pattern after def-use expansion; normal forms",
             "text": "Write sets of all fitting functions contain no pre-existing object; no random/clock source is reachable and start vector / method "
                     "are constants; the selection loops match the best-of idiom on the caller's data; __call__/__mul__/from_array have the documented forms.",
             "note": "NOT decided: that the optimiser reaches an optimum; numeric equality of repeated fits beyond absence of nondeterminism sources."},
-    "C17": {"technique": "static: writer/reader table extraction and set / bijection comparison",
+    "C17": {"technique": "static: normal-form evaluation of save/load over a model of pandas/json/joblib/pathlib (nothing is run or written); writer/reader tables read from the computed values; set / bijection comparison",
             "text": "Column sets, field->column->field identity with tuple positions, value/unit and value/type recombination, side-file naming and "
-                    "safe/unsafe symmetry, JSON key bijections, series-vs-scalar shape and the fresh-directory rule are decided on tables extracted "
-                    "from save/load/from_frame/safe_save/safe_load.",
+                    "safe/unsafe symmetry, JSON key bijections, series-vs-scalar shape and the fresh-directory rule are decided on tables read from "
+                    "the values the evaluator computes for save/load/from_frame/safe_save/safe_load (write events, constructed objects).",
             "note": "NOT decided: 1e-9 fidelity of CSV/JSON/joblib; directory-suffix collision rate (a collision raises, never overwrites)."},
     "C18": {"technique": "static: validator structure + who-may-write; sign-set reasoning over path decisions of the series model",
             "text": "Fractions: every reported composition is built by the validating constructor and p is never assigned. Mass / temperature: every "
